@@ -30,11 +30,18 @@
    q.ratiook <num> <den> <domain> <q> <u>     (spec predicate ratioOk)
    q.entryok <num> <den> <domain> <q> <u>     (spec predicate entryOk)
    q.signalok <want> <domain> <q> <u>         (spec predicate signalOk)
+   Superposition / phasor operators (model Lcapy/Model/QuantitiesSup.lean, tables Generated/QuantitiesSup.lean):
+   suparg := number | sup:<quantity> | ex <opd>
+   q.supadd|q.supsub|q.supmul|q.supdiv <qS> <suparg>  -> sup <q> - | sup <q> <key> <domain> <quantity> | err <kind>
+   q.supeq <qS> <suparg>        -> compares | raises
+   popd := <opd> <omega>   with omega := - | sym | n<k>
+   q.phmul|q.phdiv <popd> <popd>, q.phadd <cfg> <popd> <popd>  -> ok <domain> <quantity> <units> <omega> | err <kind>
 -/
 import Lcapy.Generated.Quantities
 import Lcapy.Generated.QuantitiesTP
+import Lcapy.Generated.QuantitiesSup
 namespace Lcapy.Driver.C18
-open Lcapy.Dim Lcapy.QModel Lcapy.DimTP
+open Lcapy.Dim Lcapy.QModel Lcapy.DimTP Lcapy.QSup
 
 def T : Tables := Lcapy.Gen.Q.tables
 
@@ -105,10 +112,83 @@ def handleTP (toks : List String) : Option String :=
       match PortVar.ofString? n, PortVar.ofString? d, Domain.ofString? dom, Quantity.ofString? q, parseU u with
       | some n, some d, some dom, some q, some u => bstr (entryOk n d dom q u)
       | _, _, _, _, _ => "bad-op"
+  | ["q.omegaok", b, sm, z, r] => some <|
+      match parseB b, parseB sm, parseB z, parseB r with
+      | some b, some sm, some z, some r => bstr (omegaOk b sm z r)
+      | _, _, _, _ => "bad-op"
   | ["q.signalok", w, dom, q, u] => some <|
       match Quantity.ofString? w, Domain.ofString? dom, Quantity.ofString? q, parseU u with
       | some w, some dom, some q, some u => bstr (signalOk w dom q u)
       | _, _, _, _ => "bad-op"
+  | _ => none
+
+def ST : SupTables := Lcapy.Gen.QSup.supTables
+
+def parseSupArg : List String → Option SupArg
+  | ["number"] => some .number
+  | "ex" :: rest =>
+      match parseOpd rest with
+      | some (x, []) => some (.ex x)
+      | _ => none
+  | [t] =>
+      if t.startsWith "sup:" then (Quantity.ofString? (t.drop 4).toString).map SupArg.sup else none
+  | _ => none
+
+def xerrStr : XErr → String
+  | .quantities => "quantities" | .kind => "kind" | .type => "type" | .omega => "omega"
+  | .domains => "domains" | .units => "units" | .table => "table"
+
+def supStr : SupOutcome → String
+  | .sup q none => s!"sup {q} -"
+  | .sup q (some (k, d, q')) => s!"sup {q} {k} {d} {q'}"
+  | .err e => s!"err {xerrStr e}"
+
+def parseOm (s : String) : Option Om :=
+  if s == "-" then some .none else if s == "sym" then some .sym
+  else if s.startsWith "n" then (s.drop 1).toString.toNat?.map Om.num else none
+
+def omStr : Om → String
+  | .none => "-" | .sym => "sym" | .num n => s!"n{n}"
+
+def parsePOpd (toks : List String) : Option (POpd × List String) :=
+  match parseOpd toks with
+  | some (x, om :: rest) => (parseOm om).map (fun o => (⟨x, o⟩, rest))
+  | _ => none
+
+def poutStr : POutcome → String
+  | .ok d q u om => s!"ok {d} {q} {u} {omStr om}"
+  | .err e => s!"err {xerrStr e}"
+
+def handleSup (toks : List String) : Option String :=
+  match toks with
+  | op :: qS :: rest =>
+      if op == "q.supadd" || op == "q.supsub" || op == "q.supmul" || op == "q.supdiv" || op == "q.supeq" then
+        some <|
+          match Quantity.ofString? qS, parseSupArg rest with
+          | some qS, some a =>
+            if op == "q.supadd" then supStr (supAdd T ST qS a)
+            else if op == "q.supsub" then supStr (supSub T ST qS a)
+            else if op == "q.supmul" then supStr (supMul ST qS a)
+            else if op == "q.supdiv" then supStr (supDiv ST qS a)
+            else if supEqCompares T ST qS a then "compares" else "raises"
+          | _, _ => "bad-op"
+      else if op == "q.phmul" || op == "q.phdiv" then
+        some <|
+          match parsePOpd (qS :: rest) with
+          | some (a, rest2) =>
+            match parsePOpd rest2 with
+            | some (x, []) => poutStr (if op == "q.phmul" then phMul T ST a x else phDiv T ST a x)
+            | _ => "bad-op"
+          | none => "bad-op"
+      else if op == "q.phadd" then
+        some <|
+          match parseCfg qS, parsePOpd rest with
+          | some c, some (a, rest2) =>
+            match parsePOpd rest2 with
+            | some (x, []) => poutStr (phAdd T ST c a x)
+            | _ => "bad-op"
+          | _, _ => "bad-op"
+      else none
   | _ => none
 
 def handleQ (toks : List String) : Option String :=
@@ -222,6 +302,9 @@ def handleQ (toks : List String) : Option String :=
 def handle (toks : List String) : Option String :=
   match handleTP toks with
   | some r => some r
-  | none => handleQ toks
+  | none =>
+    match handleSup toks with
+    | some r => some r
+    | none => handleQ toks
 
 end Lcapy.Driver.C18
